@@ -260,9 +260,14 @@ func emitDdefs(mode string, wire []byte, seen map[string]bool, do func(string) s
 		return
 	}
 	// every value any 35= field of the wire carries (the header lookup of 35 can change while parsing)
+	// (the parser reads tags as numbers: `035=` is MsgType too)
 	for _, f := range strings.Split(string(wire), "\x01") {
-		if strings.HasPrefix(f, "35=") {
-			emit(ddefA(app, []byte(f[3:])))
+		eq := strings.IndexByte(f, '=')
+		if eq <= 0 {
+			continue
+		}
+		if n, err := strconv.Atoi(f[:eq]); err == nil && n == 35 && f[0] != '+' {
+			emit(ddefA(app, []byte(f[eq+1:])))
 		}
 	}
 }
